@@ -1,16 +1,21 @@
 import NA.Model.Lock
+import NA.Spec.FlockPath
 import NA.Core.IOUtil
 /-! Driver for C12 (core only): executes the lock model.
 One request per line, fields separated by TAB:
 
 * `base<TAB>STRING`                     → `path.Base` of the model (`NA.Flock.base`)
+* `lock<TAB>BASEDIR<TAB>ARG`            → the lock file `device.SetLock(ARG)` derives (`NA.Flock.lockPath`)
 * `run<TAB>SPECS<TAB>SCHEDULE`          → outcome of that schedule
 * `reach<TAB>SPECS<TAB>KILLABLE`        → all outcome vectors reachable by any interleaving
                                            (KILLABLE: comma separated pids that may be killed)
 
 SPECS: invocations separated by `|`, each `d:ARG` (drc ARG) or `a:ARG` (do-approve … ARG).
 SCHEDULE: comma separated macro actions, `X<pid>`:
-  `s` one step, `f` one failing step, `k` SIGKILL, `g` finaliser,
+  `s` one step, `f` one failing step, `k` SIGKILL, `g` finaliser, `r` the child (ssh) of the process ends,
+  `c` that child reaches its `exec`, `F` run until the child has been forked but has NOT reached `exec`
+  (in all other macros the child execs right after the fork),
+  `X<10*pid+k>` run the process and take its k-th (0-based) conditional early return,
   `L` run until the flock step has been executed (or the process ended),
   `S` run until the device session has begun (or the process ended),
   `R` run to the end.
@@ -31,25 +36,47 @@ def parseSpec (s : String) : Option Spec :=
     else none
   | _ => none
 
-def stepsUntil (w : World) (i : Pid) (stop : Proc → List Ev → Bool) : Nat → World
+/-- one step of process `i`; the child it forks for its device session reaches `exec` at once
+(`autoExec`), as it does in every run that is not disturbed in the fork window -/
+def step1 (w : World) (i : Pid) (autoExec : Bool) : World :=
+  let forks := spawns (w.procs i) && (w.procs i).st == .running
+  let w' := exec w (.step i)
+  if forks && autoExec then exec w' (.cexec i) else w'
+
+def stepsUntil (w : World) (i : Pid) (stop : Proc → List Ev → Bool) (autoExec : Bool := true) : Nat → World
   | 0 => w
   | fuel + 1 =>
     let p := w.procs i
     if p.st != .running || stop p w.trace then w
-    else stepsUntil (exec w (.step i)) i stop fuel
+    else stepsUntil (step1 w i autoExec) i stop autoExec fuel
 
 def pastFlock (i : Pid) (_ : Proc) (tr : List Ev) : Bool := tr.any fun e => e.pid == i && e.step == .flock
 def inSession (i : Pid) (_ : Proc) (tr : List Ev) : Bool := tr.any fun e => e.pid == i && e.step == .devBegin
 
+/-- run process `i`, passing conditional returns, and take the `k`-th one -/
+def earlyExit (w : World) (i : Pid) (k : Nat) : Nat → World
+  | 0 => w
+  | fuel + 1 =>
+    let p := w.procs i
+    if p.st != .running then w
+    else match p.prog with
+      | .mayExit _ :: _ =>
+        if k == 0 then exec w (.fail i) else earlyExit (exec w (.step i)) i (k - 1) fuel
+      | _ => earlyExit (step1 w i true) i k fuel
+
 def applyMacro (w : World) (c : Char) (i : Pid) : Option World :=
   match c with
-  | 's' => some (exec w (.step i))
+  | 'r' => some (exec w (.reap i))
+  | 'c' => some (exec w (.cexec i))
+  | 'F' => some (stepsUntil w i (inSession i) false 200)
+  | 'X' => some (earlyExit w (i / 10) (i % 10) 200)
+  | 's' => some (step1 w i true)
   | 'f' => some (exec w (.fail i))
   | 'k' => some (exec w (.kill i))
   | 'g' => some (exec w (.gc i))
-  | 'L' => some (stepsUntil w i (pastFlock i) 200)
-  | 'S' => some (stepsUntil w i (inSession i) 200)
-  | 'R' => some (stepsUntil w i (fun _ _ => false) 200)
+  | 'L' => some (stepsUntil w i (pastFlock i) true 200)
+  | 'S' => some (stepsUntil w i (inSession i) true 200)
+  | 'R' => some (stepsUntil w i (fun _ _ => false) true 200)
   | _ => none
 
 def parseMacro (s : String) : Option (Char × Pid) :=
@@ -115,6 +142,8 @@ def answer (line : String) : String :=
   match splitTab line with
   | ["base", s] => NA.Flock.base s
   | ["base"] => NA.Flock.base ""
+  | ["lock", basedir, arg] => NA.Flock.lockPath basedir arg
+  | ["lock", basedir] => NA.Flock.lockPath basedir ""
   | ["run", specs, sched] =>
     match parseSpecs specs with
     | none => "bad-specs"
